@@ -22,6 +22,8 @@ func init() {
 		c04Pairing(c)
 		c04Lookups(c)
 		c04Window(c)
+		c12Shutdown(c)                                                                         // C04.6: server shutdown closes every registered session …
+		c03AdmittedStates(c, "C04.6b", map[string]bool{"Close/closeTransport(discard)": true}) // … including one that is already closing gracefully
 		c20Ids(c, "C04.5")
 		c04IdUse(c)
 	})
